@@ -419,7 +419,7 @@ class MemioEngine(object):
             n = None
             w.probe("default_read")
         elif mode == 1:
-            n = [0, 1, L, L + 1, B, 2 * B + 1, -1][t.draw(7)]
+            n = [0, 1, L, L + 1, B, 2 * B + 1, -1, -7][t.draw(8)]
         else:
             n = t.draw(L + 4)
         args = () if n is None else (n,)
@@ -629,8 +629,10 @@ class MemioEngine(object):
     def op_free(self, v):
         w, c = self.w, self.c
         # only root views have free()
-        rootv = next(x for x in self.views if x.root is v.root and
-                     x.depth == 0)
+        rootv = next((x for x in self.views if x.root is v.root and
+                      x.depth == 0), None)
+        if rootv is None:
+            return      # the caller no longer holds the root view
         if rootv.root.freed:
             return self.expect_dead(rootv, "free", rootv.obj.free)
         self.begin("free", "%s.free()" % rootv.name, None)
@@ -647,6 +649,22 @@ class MemioEngine(object):
             w.violate("A", "free() returned but block %#x is still allocated"
                       % rootv.root.ptr, kind="free")
         self.end("freed")
+
+    def op_forget(self, v):
+        """The caller lets go of a view object - typically the one others
+        were sliced from (a helper that returns only a sub-view,
+        ``mc.sdram_alloc_as_filelike(n)[a:b]``) - and the collector runs.
+        Nothing was closed or freed: the views still held work as before."""
+        import gc
+        if len(self.views) < 2:
+            return
+        self.begin("forget", "del %s" % v.name, None)
+        self.views.remove(v)
+        v.obj = None
+        del v
+        gc.collect()
+        self.w.probe("view_object_dropped")
+        self.end("dropped")
 
     def op_misc(self, v):
         if self.dead(v):
@@ -700,7 +718,10 @@ class MemioEngine(object):
                     else:
                         self.op_vertices()
                     continue
-                k = t.weighted([2, 6, 6, 6, 4, 2, 1, 1, 1, 1, 1])
+                k = t.weighted([2, 6, 6, 6, 4, 2, 1, 1, 1, 1, 1, 1])
+                if k == 11:
+                    self.op_forget(self.pick_view())
+                    continue
                 if k == 0:
                     self.op_alloc()
                     continue
